@@ -6,6 +6,7 @@ import (
 	"fmt"
 	"net/http"
 	"net/url"
+	"regexp"
 	"strings"
 
 	opl "github.com/ory/keto/proto/ory/keto/opl/v1alpha1"
@@ -78,6 +79,58 @@ var restEndpoints = []restEndpoint{
 	{"opl", "POST", "/opl/syntax/check", false, true},
 }
 
+const oplTemplate = `import { Namespace, Context, SubjectSet } from "@ory/keto-namespace-types"
+class User implements Namespace {}
+class Group implements Namespace {
+  related: {
+    members: (User | SubjectSet<Group, "members">)[]
+  }
+}
+class Doc implements Namespace {
+  related: {
+    owners: User[]
+    parents: Doc[]
+    viewers: (User | SubjectSet<Group, "members">)[]
+  }
+  permits = {
+    view: (ctx: Context): boolean => this.related.owners.includes(ctx.subject) || this.related.viewers.includes(ctx.subject) || this.related.parents.traverse((p) => p.permits.view(ctx)),
+    edit: (ctx: Context): boolean => this.permits.view(ctx) && !this.related.parents.traverse((p) => p.related.owners.includes(ctx.subject)),
+  }
+}
+`
+
+var oplWord = regexp.MustCompile(`[A-Za-z]+|"[^"]*"|[{}()\[\]<>|&!.,:=]`)
+
+// hostileOPL: a well-formed document in which one to three tokens are replaced
+// by, or raw bytes are inserted as, things a lexer and an error-message
+// formatter have to survive: string literals holding invalid UTF-8, NUL and
+// control bytes, unterminated strings and comments, very long tokens, bidi
+// and zero-width characters.
+func hostileOPL(t *Tape) string {
+	doc := oplTemplate
+	junk := []string{"\"\xff\xfeNamespace\"", "'\xc3\x28'", "\"\x00\"", "\x00", "\"unterminated", "'unterminated", "/* unterminated", "// comment\xff", "\"" + strings.Repeat("a", 70000) + "\"",
+		strings.Repeat("x", 70000), "\u202e", "\u200b", "\xef\xbb\xbf", "\xed\xa0\x80", "`template`", "\"\\\"", "\"\\u12\"", "0x", "1e999", "\r", "\x1b[31m", "\xf8\x88\x80\x80\x80"}
+	n := t.Range(1, 3)
+	for i := 0; i < n; i++ {
+		locs := oplWord.FindAllStringIndex(doc, -1)
+		if len(locs) == 0 {
+			break
+		}
+		l := locs[t.Choose(len(locs))]
+		j := junk[t.Choose(len(junk))]
+		switch t.Choose(3) {
+		case 0: // replace the token
+			doc = doc[:l[0]] + j + doc[l[1]:]
+		case 1: // insert in front of it
+			doc = doc[:l[0]] + j + " " + doc[l[0]:]
+		default: // raw bytes at a random offset
+			o := t.Choose(len(doc) + 1)
+			doc = doc[:o] + j + doc[o:]
+		}
+	}
+	return doc
+}
+
 // deepBody: pathological nesting for the syntax endpoints - far deeper than any
 // documented limit and large enough (up to ~4 MB) that unbounded recursion
 // exhausts a goroutine stack, which no recovery can catch.
@@ -131,6 +184,9 @@ func (s *Sys) genHostileREST(t *Tape, dom Domain, existing []Tuple) hostileReq {
 			}
 		case "/opl/syntax/check":
 			body = []byte("class A implements Namespace {}")
+			if t.Bool(1, 2) {
+				body = []byte(hostileOPL(t))
+			}
 		default:
 			body, _ = json.Marshal(base.API())
 		}
@@ -291,6 +347,12 @@ func (s *Sys) genHostileGRPC(t *Tape, dom Domain, existing []Tuple) hostileReq {
 		if t.Bool(1, 3) {
 			c := deepBody(t)
 			h.Desc = fmt.Sprintf("Syntax.Check{%d bytes of nesting}", len(c))
+			h.grpc = func() error { _, err := s.Syntax.Check(ctx, &opl.CheckRequest{Content: []byte(c)}); return err }
+			break
+		}
+		if t.Bool(1, 2) {
+			c := hostileOPL(t)
+			h.Desc = fmt.Sprintf("Syntax.Check{%d bytes, hostile tokens: %q}", len(c), c[:min(len(c), 120)])
 			h.grpc = func() error { _, err := s.Syntax.Check(ctx, &opl.CheckRequest{Content: []byte(c)}); return err }
 			break
 		}
